@@ -57,11 +57,19 @@ CHECKS = {
  'C19': dict(text='decode_move is proved against its specification for every stored move and board; the weighted random policy is proved to return exactly the entry whose cumulative-weight '
              'interval contains the sample (hence probability proportional to weight and never a zero-weight move) for every sample and weight vector; the best policy returns a maximal-weight entry.',
              note='the file reader loop (std::ifstream/std::map code) is NOT covered; map lookup and RNG are stubbed; entries per key bounded (3 quick / 5 thorough)', ref='DESIGN.md 2/C19'),
+ 'C14': dict(text='PositionScorer::score is executed as compiled on a symbolic position with scorer A and on its colour mirror with scorer B, ALL scratch members of both scorers arbitrary on entry: equal values for every '
+             'choice prove that nothing survives from earlier evaluations (purity) and colour symmetry; the value is proved to lie strictly inside the non-mate range. A second family of queries proves that setup<> recomputes '
+             'every working set from the position alone (failures there are reported only when a native battery demonstrates an evaluation difference).',
+             note='pawn cache switched off in the queries (transparency argued from the code, not encoded); general evaluator only for small material (K+P v k+p quick); endgame evaluators covered through C13', ref='DESIGN.md 2/C14'),
  'C15': dict(text='move_is_capture, move_is_quiet and move_gives_check are proved to agree with the outcome of playing the move in the rules reference for every legal move '
              '(promotions, en passant, castling, discovered checks) of every placement of the listed material.',
              note='slider_attack<> by contract (C11); material bound', ref='DESIGN.md 2/C15'),
  'C16': dict(text='Packed Move and MoveInfo encodings decode to the fields they were built from, for all field values (no bound).',
              note='FEN text and move text (std::string/iostream code) are not covered by this check', ref='DESIGN.md 2/C16'),
+ 'C20': dict(text='Assume/guarantee: importance() on precise IEEE arithmetic lies in [0.01,1]; IEEE addition/division/truncation lemmas proved; computeTimeForFixedLength as compiled (importance and IEEE operations by '
+             'those contracts) returns a value in [0,T], monotone in T, for every movesToGo (symbolic); calculateTime as compiled with that contract is non-negative and at most 70% of the remaining time for all clock states; '
+             'monotonicity of calculateTime is attempted.',
+             note='three IEEE-754 facts about double MULTIPLICATION (range, monotonicity, trunc(0.7*t) <= 70%) are assumed: no available back end decides a 53-bit multiplication; -Ofast reassociation not modelled', ref='DESIGN.md 2/C20'),
 }
 NA = {
  'C17': 'parse_san is std::regex_match on libstdc++\'s regex NFA plus std::optional/smatch; san() builds std::strings through std::vector/std::function filters and a copied Position. '
